@@ -71,9 +71,10 @@ def send_scenario(nreq, planted=False):
             cid = ['c1', 'c2'][e.choice('cid', 2)]
             mid = e.fresh_int('mid', -1)
             env = {'cid': cid, 'uid': 'u', 'mid': mid}
-            kind = e.choice('kind', 3)
+            kind = e.choice('kind', 4)
             if kind == 1: env['eph'] = 1
             if kind == 2: env['new'] = True
+            if kind == 3: env = {'cid': cid, 'uid': 'u', 'mid': Z.MSG_ID_OOB, 'xtra': 'oob'}      # out-of-band message (ZMQReceiver.send_oob)
             pull.inq.append([Env(env)])
         World.oracle = lambda ready, timeout: ready[0] if ready else None
         has_state = e.choice('state', 2)
@@ -161,7 +162,7 @@ def harnesses(tier):
         Harness('c02.dup_destination', dupdst_scenario, bounds={'forms': '3 x 3', 'id': 'unbounded'}, functions=fn, stubs=stubs, assumptions=assume, budget_s=120),
         Harness('c02.send_backlog', send_scenario(2 if q else 3), twin=send_scenario(2, planted=True),
                 bounds={'requests_queued': 2 if q else 3, 'request ids': 'unbounded Int >= -1', 'min_send_id': 'unbounded Int >= 0', 'state': 'None or unbounded id',
-                        'client kinds': 'sync / ephemeral / new'}, functions=fn, stubs=stubs, assumptions=assume, budget_s=600),
+                        'client kinds': 'sync / ephemeral / new / out-of-band message'}, functions=fn, stubs=stubs, assumptions=assume, budget_s=600),
         Harness('c02.mq_couple', mq_couple_scenario(2 if q else 3), twin=mq_couple_scenario(2, planted=True),
                 bounds={'rounds recv->send': 2 if q else 3, 'downstream requests per round': '0-2, ids unbounded', 'upstream ids': 'unbounded increasing'},
                 functions=fn, stubs=stubs, assumptions=assume, budget_s=600),
